@@ -11,7 +11,9 @@ helper call as `key=value` tokens (vectors `a,b,c`; lists of vectors `v;w`; `-` 
   pt  n= feed=v bot0=v ids=l K=v topc=l botc=l phi= strict=0|1   -> pt phi= top=v bot=v clip=0|1 kok=0|1 [path=silent-clip] [borderline] | pt err=…
       (clip = the clipping was reported by a warning; kok = top_i/(K_i·bottom_i) agree over the equilibrium chemicals;
        bot0 is accepted and ignored: the repaired partition does not read it)
-  bpf zs=v ks=v za= zb= solver=                              -> bpf path= phi=
+  bpf zs=v ks=v za= zb= solver= x0= x1=                      -> bpf path= phi= sv= root=0|1
+      (solver = value returned by solve_phase_fraction_Rashford_Rice; sv = the model's value of it: early exits and sign
+       tests modelled, iterated root taken from `solver`; root = that root brackets a sign change of the objective)
   lle n= feed=v L=v l=v tc=0|1 rhol=x|none rhoL=x|none eff= h0L=v h0l=v ldL=v ldl=v -> lle top=v bot=v hyp=0|1 load=0|1
   vle n= feed=v g=v l=v h0g=v h0l=v ldg=v ldl=v              -> vle vap=v liq=v hyp=0|1 load=0|1
       (h0* = rows of the multi_stream holder before the call (`-` = no holder / empty); ld* = rows observed on entry of
@@ -148,11 +150,24 @@ def run (op : String) (kv : KV) : Option String :=
     let za ← parseRat? (← kv.get "za")
     let zb ← parseRat? (← kv.get "zb")
     let solver ← parseRat? (← kv.get "solver")
-    let path := match pfPath zs ks za zb with
+    let x0 ← parseRat? ((kv.get "x0").getD "0")
+    let x1 ← parseRat? ((kv.get "x1").getD "1")
+    let pth := pfPath zs ks za zb
+    let path := match pth with
       | .solver => "solver" | .allKle1 => "allKle1" | .allKge1 => "allKge1" | .closed2N => "closed2N"
       | .valueError => "valueError"
-    match binaryPhaseFraction zs ks za zb solver with
-    | .ok phi => some s!"bpf path={path} phi={showRat phi}"
+    -- the N-component solver: early exits and end-point sign tests are modelled, the iterated root is a parameter
+    -- that must bracket a sign change of the objective
+    let (sv, root, sub) := match pth with
+      | .solver =>
+        let it := rrIterative zs ks za zb x0 x1
+        (showRat (rrSolve zs ks za zb x0 x1 solver),
+         -- (only for coefficients inside the property's domain: with K ≤ 0 the objective has poles in [0,1])
+         showB (!it || !(ks.all (fun k => decide (0 < k))) || rrRootOK zs ks za zb x0 x1 solver (1 / 500000)),
+         if it then " path=rr-iterated" else " path=rr-early-exit")
+      | _ => ("-", "1", "")
+    match binaryPhaseFraction zs ks za zb (match pth with | .solver => rrSolve zs ks za zb x0 x1 solver | _ => solver) with
+    | .ok phi => some (s!"bpf path={path} phi={showRat phi} sv={sv} root={root}" ++ sub)
     | .error e => some s!"bpf path={path} err={e.toString}"
   | "lle" => do
     let n ← (← kv.get "n").toNat?
